@@ -290,6 +290,10 @@ func opFamilyMatch(f, op string) bool {
 		case "NextValue", "PreviousValue", "NextAbsentValue", "PreviousAbsentValue":
 			return true
 		}
+	case "ser":
+		return op == "Ser"
+	case "frozen":
+		return op == "Freeze" || op == "FrozenRT"
 	case "trans":
 		switch op {
 		case "FlipS", "AddOffset", "DenseRT", "BitSetRT":
